@@ -789,6 +789,13 @@ func (c *Ctx) c08Panics(recovering map[*ssa.Function]bool) {
 				key := top.Name() + ": panic(" + origin + ")"
 				seen[key]++
 				why, ok2 := classified[key]
+				if !ok2 {
+					// errors of these repository functions are classified wherever the panic sits
+					// (moving the code into a helper does not change what the panic means)
+					if w, okO := classifiedByOrigin[origin]; okO {
+						why, ok2 = w, true
+					}
+				}
 				if ok2 && why != "" {
 					if seen[key] == 1 {
 						r.OK("R08.7", key, c.P.Pos(p.Pos()), "classified: "+why)
@@ -944,4 +951,16 @@ func (c *Ctx) transferSignCheck(rule string, tr *ssa.Function) int {
 		return ok && core.CalleeObj(call) != nil && core.CalleeObj(call).Name() == "SetBalance"
 	}
 	return c.behindEdges(rule, "transfer: amount not negative", tr, nonNeg, isSet, "value.Sign() >= 0", "balance write")
+}
+
+var classifiedByOrigin = map[string]string{
+	"error of rollbackBlocks":         "storage fault / ordering invariant: rollback of already executed blocks failed",
+	"error of buildTxMerkleTree":      "internal invariant: merkle tree over a non-empty list of hashes",
+	"error of calcReceiptMerkleRoot":  "internal invariant: merkle tree over a non-empty list of hashes",
+	"error of calcTimeoutL2Root":      "internal invariant: merkle tree over a non-empty list of ids read from contract state",
+	"error of calcMerkleRoot":         "internal invariant: merkle tree over a non-empty list of hashes",
+	"error of getMultiTxIBTPsMap":     "codec of contract-written state (written by addToMultiTxNotifyMap with the same type)",
+	"error of PersistExecutionResult": "storage fault",
+	"error of loadChainMeta":          "storage fault",
+	"error of Retry":                  "storage fault: the block to replace cannot be read from the ledger",
 }
